@@ -22,6 +22,12 @@ def IsTree (m : Morph) (root : Nat) : Prop := ∃ r, WfTree m r root
 theorem IsTree.isForest {m : Morph} {root : Nat} (h : IsTree m root) : IsForest m :=
   let ⟨r, wt⟩ := h; ⟨r, wt.toWfForest⟩
 
+def pt (x y z d : Rat) : Pt := ⟨x, y, z, d⟩
+
+/-- a chain `3 → 2 → 0` rooted at id 3 whose tip has id 0 -/
+def chain3 : Morph :=
+  [⟨3, none, some (pt 0 0 0 1), pt 4 0 0 1⟩, ⟨2, some (3, 1), none, pt 8 0 0 1⟩, ⟨0, some (2, 1/2), none, pt 6 2 0 2⟩]
+
 /-! ## the spec relations are functional -/
 
 theorem c13_actualProxS_unique {m : Morph} {i : Nat} {p q : Pt} (hp : ActualProxS m i p) (hq : ActualProxS m i q) :
@@ -156,14 +162,19 @@ theorem c13_root {m : Morph} {root : Nat} (h : IsTree m root) (len : Nat → Rat
 /-! ## 6. segments at distance `d` -/
 
 /-- **`get_segments_at_distance(d, root)` = the segments of non-zero length that contain the point at path length
-    `d` from the root, with the fraction along at which it lies** (lengths non-negative) -/
+    `d` from the root, with the fraction along at which it lies** (lengths non-negative, `0 ≤ d`; for a negative
+    `d` networkx still reports the source, so the code answers `{root: d / len root}` where the definition has
+    nothing — see the example below) -/
 theorem c13_at_distance {m : Morph} {root : Nat} (h : IsTree m root) (len : Nat → Rat)
-    (hlen : ∀ i ∈ ids m, 0 ≤ len i) (d : Rat) :
+    (hlen : ∀ i ∈ ids m, 0 ≤ len i) (d : Rat) (hd : 0 ≤ d) :
     ∃ res, segmentsAtDistance m len (m.length + 1) d root = some res ∧
       ∀ i fr, (i, fr) ∈ res ↔ AtDistanceS m len d i fr := by
   obtain ⟨r, wt⟩ := h
   obtain ⟨wt', hb⟩ := wt.compress
-  exact segmentsAtDistance_spec wt' len hlen _ hb d
+  exact segmentsAtDistance_spec wt' len hlen _ hb d hd
+
+/-- `0 ≤ d` is needed: a negative distance yields the root with a negative fraction -/
+example : segmentsAtDistance chain3 (fun _ => 4) 4 (-1) 3 = some [(3, -1/4)] := by decide +kernel
 
 /-! ## 7. `get_segment_location_info` -/
 
@@ -223,8 +234,6 @@ theorem c13_location_info_none {m : Morph} (h : IsForest m) (len : Nat → Rat) 
   · split <;> rfl
 
 /-! ## witnesses and examples -/
-
-def pt (x y z d : Rat) : Pt := ⟨x, y, z, d⟩
 
 /-- scattered ids, children before parents in the file, a branch point, a segment without proximal point:
     `7 → {12, 3}`, `3 → 0`, `12 → 9` -/
@@ -292,10 +301,6 @@ theorem c13_location_info_witness : ¬ c13_location_info_full := by
   cases this
 
 /-! ### the two defects repaired by `fixes/C13-graph-nodes-and-tip-distance-root.patch` (old code, `…Old`) -/
-
-/-- a chain `3 → 2 → 0` rooted at id 3 whose tip has id 0 -/
-def chain3 : Morph :=
-  [⟨3, none, some (pt 0 0 0 1), pt 4 0 0 1⟩, ⟨2, some (3, 1), none, pt 8 0 0 1⟩, ⟨0, some (2, 1/2), none, pt 6 2 0 2⟩]
 
 theorem chain3_isTree : IsTree chain3 3 := ⟨fun i => 3 - i, wfTreeB_sound (by decide)⟩
 
